@@ -1,9 +1,9 @@
 Require Extraction.
 Require Import ExtrOcamlBasic.
 From Coq Require Import ZArith NArith List.
-From VB Require Import Score.CInt Gen.KeystoneGen Gen.ScoreParams Score.KeystoneDefs Score.CmpDefs.
+From VB Require Import Score.CInt Gen.KeystoneGen Gen.ScoreParams Score.KeystoneDefs Score.CmpDefs Score.ViewDefs.
 Extraction "Score_model.ml" Nat.pred N.succ Z.succ
-  impl spec pub_profile inf_profile real_view holes_view enc_view outer_cmp
+  ktx ktx_spec adjust impl spec pub_profile inf_profile real_view holes_view enc_view outer_cmp
   highestKeystoneAtOrBefore blockHeightToKeystoneNumber isKeystone firstKeystoneAfter
   highestBlockWhichConnectsKeystoneToPrevious isCrossedKeystoneBoundary areOnSameKeystoneInterval
   getPreviousKeystoneHeight
